@@ -321,3 +321,25 @@ func (in *Interp) ctxErrCanceled() *IfaceV {
 	in.natives["ctx.Canceled"] = e
 	return e
 }
+
+func init() {
+	// net/http process-wide defaults: plain zero-valued objects
+	globalInits["net/http.DefaultClient"] = func(in *Interp, c *Cell) {
+		t := lookupType(in.w.prog, "net/http", "Client")
+		c.V = &PtrV{C: newCell(t, nil)}
+	}
+	globalInits["net/http.DefaultTransport"] = func(in *Interp, c *Cell) {
+		t := lookupType(in.w.prog, "net/http", "Transport")
+		c.V = &IfaceV{T: types.NewPointer(t), V: &PtrV{C: newCell(t, nil)}}
+	}
+	reg("io.NopCloser", func(in *Interp, g *Goroutine, c *callCtx) (Value, int) { return done(c.args[0]) })
+}
+
+func init() {
+	for _, n := range []string{"StdEncoding", "URLEncoding", "RawStdEncoding", "RawURLEncoding"} {
+		globalInits["encoding/base64."+n] = func(in *Interp, c *Cell) {
+			t := lookupType(in.w.prog, "encoding/base64", "Encoding")
+			c.V = &PtrV{C: newCell(t, nil)}
+		}
+	}
+}
